@@ -210,7 +210,7 @@ func GenerateB(spec Spec) *CorpusB {
 		for fi := 0; fi < nfiles; fi++ {
 			g := &genB{tp: tp, used: map[string]btype{}}
 			var body strings.Builder
-			ni := 1 + tp.Int(2)
+			ni := 1 + tp.Int(3)
 			for k := 0; k < ni; k++ {
 				name := fmt.Sprintf("I%c%c", 'A'+fi, 'A'+k)
 				p.Ifaces = append(p.Ifaces, name)
